@@ -941,10 +941,9 @@ func scenarioWorld(c *harness.Ctx) {
 				c.Fail("gate.dispatch", "handlegame", "error-not-propagated", "%s: a handler failed at invocation %d but HandleGame returned %v", tag, b.failAt, b.gameErr)
 				return
 			}
-		} else if b.gameErr == nil {
-			c.Fail("gate.dispatch", "handlegame", "nil-after-close", "%s: HandleGame returned nil although the connection ended", tag)
-			return
 		}
+		// (what HandleGame returns when the server simply closes the connection is
+		// not part of the statement; that it returns at all is the liveness oracle)
 	}
 	if statusMode != 0 {
 		if !status.done {
